@@ -26,8 +26,34 @@ static void v32(uint32_t x)
 	printf("{\"e\":\"B32\",\"x\":[%u,%u,%u,%u],\"bitcnt\":%d,\"clz\":%d,\"ctz\":%d,\"ilog2\":%d,\"o\":[%d,%d,%d]}\n", \
 	       x_ & 0xff, (x_ >> 8) & 0xff, (x_ >> 16) & 0xff, x_ >> 24, (int)bitcnt(e), (int)clz(e), (int)ctz(e), x_ ? (int)ilog2(e) : -1, \
 	       o_pop(x_), o_clz(x_, 32), o_ctz(x_, 32)); } while (0)
+/* the same functions reached through their external symbols (a pointer, another translation unit's prototype, a foreign
+ * function interface): whatever the header may put in front of a direct call, the symbol computes the same thing */
+static int (*volatile p_bitcnt)(uint32_t) = bitcnt;
+static int (*volatile p_clz)(uint32_t) = clz;
+static int (*volatile p_ctz)(uint32_t) = ctz;
+static int (*volatile p_ilog2)(uint32_t) = ilog2;
+static void v32p(uint32_t x)
+{
+	printf("{\"e\":\"B32\",\"x\":[%u,%u,%u,%u],\"bitcnt\":%d,\"clz\":%d,\"ctz\":%d,\"ilog2\":%d,\"o\":[%d,%d,%d]}\n",
+	       x & 0xff, (x >> 8) & 0xff, (x >> 16) & 0xff, x >> 24, p_bitcnt(x), (clz)(x), p_ctz(x), x ? (ilog2)(x) : -1,
+	       o_pop(x), o_clz(x, 32), o_ctz(x, 32));
+	printf("{\"e\":\"B32\",\"x\":[%u,%u,%u,%u],\"bitcnt\":%d,\"clz\":%d,\"ctz\":%d,\"ilog2\":%d,\"o\":[%d,%d,%d]}\n",
+	       x & 0xff, (x >> 8) & 0xff, (x >> 16) & 0xff, x >> 24, (bitcnt)(x), p_clz(x), (ctz)(x), x ? p_ilog2(x) : -1,
+	       o_pop(x), o_clz(x, 32), o_ctz(x, 32));
+}
+/* every power of two, its neighbours, and its signed spelling, as compile-time constants */
+#define P2(k) V32K(1u << k); V32K((1u << k) - 1); V32K((1u << k) + 1); V32K(1 << k); V32K(~(1u << k)); V32K(-(1 << k));
+static void v32_powers(void)
+{
+	P2(0) P2(1) P2(2) P2(3) P2(4) P2(5) P2(6) P2(7) P2(8) P2(9) P2(10) P2(11) P2(12) P2(13) P2(14) P2(15)
+	P2(16) P2(17) P2(18) P2(19) P2(20) P2(21) P2(22) P2(23) P2(24) P2(25) P2(26) P2(27) P2(28) P2(29) P2(30)
+	V32K(1u << 31); V32K((1u << 31) - 1); V32K((1u << 31) + 1); V32K(~(1u << 31));
+	V32K(256); V32K(1024); V32K(4096); V32K(32768); V32K(65536); V32K(0x10000); V32K(0x100); V32K(0x1000000); V32K(16777216); V32K(1048576);
+	V32K(0x8000); V32K(0xffff); V32K(0x10001); V32K(0xff); V32K(0x101); V32K(0xffffff); V32K(0x1000001); V32K(sizeof(long) * 8192);
+}
 static void v32_constants(void)
 {
+	v32_powers();
 	V32K(~0); V32K(-1); V32K(~0x0f); V32K(-2); V32K(INT32_MIN); V32K(-65536); V32K((short)-1); V32K((signed char)-128);
 	V32K(-0x7fffffff); V32K(1); V32K(0x40000000); V32K(0x80000000); V32K(0xffffffffu); V32K(-1L); V32K(-256LL); V32K('\377');
 	V32K(~1u); V32K(1 << 30); V32K(-(1 << 30)); V32K(0x7fffffff); V32K(65535); V32K(-32768);
@@ -72,6 +98,7 @@ static void vectors(long seed, long nrandom)
 	vse(0x10, 0x3); vse(0x3, 0x10); vse(0x80000000u, 1); vse(1, 0x80000000u); vse(0, 0xffffffffu); vse(0xffffffffu, 0); vse(0xf0, 0x0f00);
 	for (int i = 0; i < 40; i++) vse(drv_rand(), drv_rand());
 	for (int i = 0; i < 32; i++) {
+		v32p(1u << i); v32p((1u << i) - 1); v32p((1u << i) + 1);
 		v32(1u << i); v32(~(1u << i));
 		for (int j = i + 1; j < 32; j++) { v32((1u << i) | (1u << j)); }
 		for (int j = i; j < 32; j++) { uint32_t m = (j - i == 31) ? 0xffffffffu : (((1u << (j - i + 1)) - 1) << i); v32(m); }  /* contiguous masks */
@@ -81,7 +108,7 @@ static void vectors(long seed, long nrandom)
 			for (unsigned a = 0; a < 16; a++)
 				for (unsigned b = 0; b < 16; b += (n2 - n1 == 1 ? 1 : 3))
 					v32((a << (4 * n1)) | (b << (4 * n2)));
-	for (long i = 0; i < nrandom; i++) v32(drv_rand() ^ (drv_rand() << 7));
+	for (long i = 0; i < nrandom; i++) { uint32_t x = drv_rand() ^ (drv_rand() << 7); if (i % 8) v32(x); else v32p(x); }
 	for (unsigned i = 0; i < sizeof(ktab) / sizeof(ktab[0]); i++) {
 		v64(ktab[i].c, ktab[i].pop, ktab[i].lssb);
 		printf("{\"e\":\"K64neg\",\"zero\":%d,\"lneg\":%d}\n", ktab[i].c == 0, ktab[i].lneg);
@@ -108,6 +135,8 @@ static void sweep(int nproc, int stride)
 				for (uint32_t k = 0; k < 65536; k++, x++) {
 					int p = o_pop(x), z = o_clz(x, 32), t = o_ctz(x, 32);
 					int ok = bitcnt(x) == p && clz(x) == z && ctz(x) == t && (!x || ilog2(x) == 31 - z);
+					/* ... and through the external symbols */
+					ok = ok && p_bitcnt(x) == p && p_clz(x) == z && p_ctz(x) == t && (!x || p_ilog2(x) == 31 - z);
 					if (!ok && !bad++) first = x;
 					n++;
 				}
